@@ -649,7 +649,33 @@ fn main() {
                 }
             }
         }
+        // a timestamp map is used for a behaviour only if every rank of the behaviour stays inside i64 under it (the wide map, whose
+        // ranks are 2.5e18 ns apart so that two timestamps can differ by more than 2^63, only fits short behaviours)
+        fn ranks(v: &Value, lo: &mut i64, hi: &mut i64) {
+            match v {
+                Value::Object(o) => {
+                    for (k, x) in o {
+                        if k == "t" {
+                            if let Some(t) = x.as_i64() {
+                                *lo = (*lo).min(t);
+                                *hi = (*hi).max(t);
+                            }
+                        }
+                        ranks(x, lo, hi);
+                    }
+                }
+                Value::Array(a) => a.iter().for_each(|x| ranks(x, lo, hi)),
+                _ => {}
+            }
+        }
+        let (mut lo, mut hi) = (0i64, 0i64);
+        ranks(&beh, &mut lo, &mut hi);
         for m in &maps {
+            let fits = |r: i64| (r - m.r0).checked_mul(m.step).and_then(|x| m.base.checked_add(x)).is_some();
+            if !(fits(lo) && fits(hi)) {
+                rep.count("maps_skipped_out_of_range", 1);
+                continue;
+            }
             replay(&beh, ln, m, &mut rep, &observe);
         }
     }
